@@ -233,7 +233,7 @@ class FakeDgramSocket:
         self.blocking = bool(flag)
 
     def bind(self, ha):
-        self.name = (ha[0], ha[1] or 40001)
+        self.name = ha if isinstance(ha, str) else (ha[0], ha[1] or 40001)   # str: unix domain path
 
     def getsockname(self):
         return self.name
@@ -280,3 +280,14 @@ def udp_installed(ns):
         yield ns
     finally:
         udping.socket = old
+
+
+@contextmanager
+def uxd_installed(ns):
+    from hio.core.uxd import uxding
+    old = uxding.socket
+    uxding.socket = ns
+    try:
+        yield ns
+    finally:
+        uxding.socket = old
